@@ -25,12 +25,13 @@ def GroupsOK (gs : List SG) : Prop := (∀ g ∈ gs, g.WF) ∧ gs.Pairwise Apart
 theorem covers_lt_effEnd (g : SG) (t : Int) (h : g.covers t = true) : g.start ≤ t ∧ t < g.effEnd ∧ g.deleted = false := by
   unfold SG.covers SG.contains at h
   unfold SG.effEnd
-  simp only [Bool.and_eq_true, decide_eq_true_eq, Bool.not_eq_true'] at h
-  obtain ⟨⟨⟨h1, h2⟩, h3⟩, h4⟩ := h
-  refine ⟨h1, ?_, h3⟩
   cases ht : g.trunc with
-  | none => simpa [ht] using h2
-  | some tr => rw [ht] at h4; simpa using h4
+  | none =>
+    simp only [ht, Bool.and_eq_true, decide_eq_true_eq, Bool.not_eq_true', Bool.and_true] at h
+    exact ⟨h.1.1, h.1.2, h.2⟩
+  | some tr =>
+    simp only [ht, Bool.and_eq_true, decide_eq_true_eq, Bool.not_eq_true'] at h
+    exact ⟨h.1.1.1, h.2, h.1.2⟩
 
 theorem covers_of (g : SG) (hw : g.WF) (t : Int) (hd : g.deleted = false) (h1 : g.start ≤ t) (h2 : t < g.effEnd) :
     g.covers t = true := by
@@ -42,9 +43,10 @@ theorem covers_of (g : SG) (hw : g.WF) (t : Int) (hd : g.deleted = false) (h1 : 
     simp [hd, h1, h2]
   | some tr =>
     rw [ht] at h2
+    simp only at h2
     have := (hw.2 tr ht).2
     simp only [Bool.and_eq_true, decide_eq_true_eq, Bool.not_eq_true']
-    exact ⟨⟨⟨h1, by omega⟩, hd⟩, by simpa using h2⟩
+    exact ⟨⟨⟨h1, by omega⟩, hd⟩, h2⟩
 
 /-! ### the clipping loop of CreateShardGroup -/
 
@@ -86,5 +88,188 @@ theorem clip_bounds (ts : Int) (gs : List SG) (s0 e0 : Int) :
       rcases hx with rfl | hx
       · exact ⟨fun h => by have := hgs h; omega, fun h => by have := hge h; omega⟩
       · exact h5 x hx hxd
+
+end InfluxVerif.Meta
+
+namespace InfluxVerif.Meta
+
+theorem clip_le (ts : Int) (gs : List SG) (s0 e0 : Int) (h1 : s0 ≤ ts) (h2 : ts < e0) :
+    (clip ts gs (s0, e0)).1 ≤ ts ∧ ts < (clip ts gs (s0, e0)).2 := by
+  obtain ⟨_, _, h3, h4, _⟩ := clip_bounds ts gs s0 e0
+  exact ⟨h3 h1, h4 h2⟩
+
+/-- the group CreateShardGroup adds (`[s, e)` from the clipping loop, not truncated) is apart
+from every group already there, provided no live group serves the timestamp -/
+theorem new_group_apart (gs : List SG) (hwf : ∀ g ∈ gs, g.WF) (ts s0 e0 : Int)
+    (hnone : (gs.find? fun g => g.covers ts) = none)
+    (sg : SG) (hs : sg.start = (clip ts gs (s0, e0)).1) (he : sg.stop = (clip ts gs (s0, e0)).2)
+    (htr : sg.trunc = none) : ∀ g ∈ gs, Apart g sg := by
+  intro g hg t ⟨hgt, hst⟩
+  obtain ⟨g1, g2, gd⟩ := covers_lt_effEnd g t hgt
+  obtain ⟨s1, s2, _⟩ := covers_lt_effEnd sg t hst
+  have hse : sg.effEnd = sg.stop := by simp [SG.effEnd, htr]
+  rw [hse] at s2
+  obtain ⟨_, _, _, _, hall⟩ := clip_bounds ts gs s0 e0
+  obtain ⟨ha, hb⟩ := hall g hg gd
+  by_cases c1 : g.effEnd ≤ ts
+  · have := ha c1; omega
+  · by_cases c2 : ts < g.start
+    · have := hb c2; omega
+    · have hc : g.covers ts = true := covers_of g (hwf g hg) ts gd (by omega) (by omega)
+      have := List.find?_eq_none.1 hnone g hg
+      simp [hc] at this
+
+/-! ### list-level preservation -/
+
+/-- `g'` is `g` with the same bounds, serving no more than `g` did -/
+def Shrinks (g g' : SG) : Prop :=
+  (∀ t, g'.covers t = true → g.covers t = true) ∧ (g.WF → g'.WF)
+
+theorem Shrinks.refl (g : SG) : Shrinks g g := ⟨fun _ h => h, fun h => h⟩
+
+theorem groupsOK_forall2 (l l' : List SG) (h : List.Forall₂ Shrinks l l') (hok : GroupsOK l) : GroupsOK l' := by
+  induction h with
+  | nil => exact ⟨by simp, List.Pairwise.nil⟩
+  | @cons a b l l' hab hrest ih =>
+    obtain ⟨hwf, hpw⟩ := hok
+    rw [List.pairwise_cons] at hpw
+    obtain ⟨hrest_ok_wf, hrest_ok_pw⟩ := ih ⟨fun g hg => hwf g (List.mem_cons_of_mem _ hg), hpw.2⟩
+    refine ⟨?_, ?_⟩
+    · intro g hg
+      simp only [List.mem_cons] at hg
+      rcases hg with rfl | hg
+      · exact hab.2 (hwf a (by simp))
+      · exact hrest_ok_wf g hg
+    · rw [List.pairwise_cons]
+      refine ⟨?_, hrest_ok_pw⟩
+      intro b' hb' t ⟨h1, h2⟩
+      -- b' comes from some a' in l with Shrinks a' b'
+      obtain ⟨a', ha', hsh⟩ : ∃ a' ∈ l, Shrinks a' b' := by
+        clear ih hrest_ok_wf hrest_ok_pw hpw hwf
+        induction hrest with
+        | nil => simp at hb'
+        | @cons x y xs ys hxy _ ih2 =>
+          simp only [List.mem_cons] at hb'
+          rcases hb' with rfl | hb'
+          · exact ⟨x, by simp, hxy⟩
+          · obtain ⟨a', ha', hs⟩ := ih2 hb'
+            exact ⟨a', List.mem_cons_of_mem _ ha', hs⟩
+      exact hpw.1 a' ha' t ⟨hab.1 t h1, hsh.1 t h2⟩
+
+theorem groupsOK_sublist (l l' : List SG) (h : l'.Sublist l) (hok : GroupsOK l) : GroupsOK l' :=
+  ⟨fun g hg => hok.1 g (h.subset hg), hok.2.sublist h⟩
+
+theorem groupsOK_perm (l l' : List SG) (h : l.Perm l') (hok : GroupsOK l) : GroupsOK l' :=
+  ⟨fun g hg => hok.1 g (h.symm.subset hg), (h.pairwise_iff (fun {_ _} hab => hab.symm)).1 hok.2⟩
+
+theorem groupsOK_snoc (l : List SG) (g : SG) (hok : GroupsOK l) (hw : g.WF) (hap : ∀ x ∈ l, Apart x g) :
+    GroupsOK (l ++ [g]) := by
+  refine ⟨?_, ?_⟩
+  · intro x hx
+    simp only [List.mem_append, List.mem_singleton] at hx
+    rcases hx with hx | rfl
+    · exact hok.1 x hx
+    · exact hw
+  · rw [List.pairwise_append]
+    refine ⟨hok.2, List.pairwise_singleton _ _, ?_⟩
+    intro a ha b hb
+    simp only [List.mem_singleton] at hb
+    subst hb
+    exact hap a ha
+
+theorem map_forall2 (f : SG → SG) (hf : ∀ g, Shrinks g (f g)) (l : List SG) : List.Forall₂ Shrinks l (l.map f) := by
+  induction l with
+  | nil => exact List.Forall₂.nil
+  | cons a l ih => exact List.Forall₂.cons (hf a) ih
+
+theorem mapFirst_forall2 (p : SG → Bool) (f : SG → SG) (hf : ∀ g, Shrinks g (f g)) (l : List SG) :
+    List.Forall₂ Shrinks l (mapFirst p f l) := by
+  induction l with
+  | nil => exact List.Forall₂.nil
+  | cons a l ih =>
+    unfold mapFirst
+    split
+    · exact List.Forall₂.cons (hf a) (by
+        clear ih
+        induction l with
+        | nil => exact List.Forall₂.nil
+        | cons b l ih2 => exact List.Forall₂.cons (Shrinks.refl b) ih2)
+    · exact List.Forall₂.cons (Shrinks.refl a) ih
+
+end InfluxVerif.Meta
+
+namespace InfluxVerif.Meta
+
+/-- same bounds and truncation; live only if it was live before -/
+theorem shrinks_of_same (g g' : SG) (h1 : g'.start = g.start) (h2 : g'.stop = g.stop) (h3 : g'.trunc = g.trunc)
+    (h4 : g'.deleted = false → g.deleted = false) : Shrinks g g' := by
+  refine ⟨?_, ?_⟩
+  · intro t ht
+    unfold SG.covers SG.contains at ht ⊢
+    rw [h1, h2, h3] at ht
+    simp only [Bool.and_eq_true, decide_eq_true_eq, Bool.not_eq_true'] at ht ⊢
+    exact ⟨⟨ht.1.1, h4 ht.1.2⟩, ht.2⟩
+  · intro hw
+    unfold SG.WF at hw ⊢
+    rw [h1, h2, h3]
+    exact hw
+
+theorem deleted_of_age (g : SG) (age : Del) (h : age ≠ .live) : ({ g with del := age } : SG).deleted = true := by
+  unfold SG.deleted
+  cases age <;> simp_all
+
+/-- the truncation step of one group -/
+def truncOne (t : Int) (g : SG) : SG :=
+  if t ≥ g.stop || g.deleted || (match g.trunc with | some tr => tr < t | none => false) then g
+  else if t ≤ g.start then { g with trunc := some g.start } else { g with trunc := some t }
+
+theorem truncOne_shrinks (t : Int) (g : SG) : Shrinks g (truncOne t g) := by
+  by_cases hc : (decide (t ≥ g.stop) || g.deleted || (match g.trunc with | some tr => decide (tr < t) | none => false)) = true
+  · have : truncOne t g = g := by unfold truncOne; rw [if_pos hc]
+    rw [this]; exact Shrinks.refl g
+  · have hc' := hc
+    simp only [Bool.or_eq_true, decide_eq_true_eq, not_or, Bool.not_eq_true] at hc
+    obtain ⟨⟨hstop, hdel⟩, htr⟩ := hc
+    by_cases hle : t ≤ g.start
+    · have : truncOne t g = { g with trunc := some g.start } := by
+        unfold truncOne; rw [if_neg hc', if_pos hle]
+      rw [this]
+      refine ⟨?_, ?_⟩
+      · intro x hx
+        unfold SG.covers SG.contains at hx
+        simp only [Bool.and_eq_true, decide_eq_true_eq, Bool.not_eq_true'] at hx
+        omega
+      · intro hw
+        unfold SG.WF at hw ⊢
+        refine ⟨hw.1, ?_⟩
+        intro tr htr'
+        simp only [Option.some.injEq] at htr'
+        subst htr'
+        exact ⟨Int.le_refl _, hw.1⟩
+    · have : truncOne t g = { g with trunc := some t } := by
+        unfold truncOne; rw [if_neg hc', if_neg hle]
+      rw [this]
+      refine ⟨?_, ?_⟩
+      · intro x hx
+        unfold SG.covers SG.contains at hx ⊢
+        simp only [Bool.and_eq_true, decide_eq_true_eq, Bool.not_eq_true'] at hx ⊢
+        refine ⟨⟨hx.1.1, hx.1.2⟩, ?_⟩
+        cases hg : g.trunc with
+        | none => trivial
+        | some tr =>
+          simp only [hg] at htr ⊢
+          have : ¬ tr < t := by simpa using htr
+          have hxt : x < t := by simpa using hx.2
+          show decide (x < tr) = true
+          simp only [decide_eq_true_eq]
+          omega
+      · intro hw
+        unfold SG.WF at hw ⊢
+        refine ⟨hw.1, ?_⟩
+        intro tr htr'
+        simp only [Option.some.injEq] at htr'
+        subst htr'
+        dsimp only
+        omega
 
 end InfluxVerif.Meta
